@@ -9,6 +9,9 @@ ids = args or sorted(d for d in os.listdir(os.path.join(VERIF, "seeded")) if os.
 from concurrent.futures import ThreadPoolExecutor
 def run(i):
     d = os.path.join(VERIF, "seeded", i)
+    mp0 = os.path.join(d, "meta.json")
+    if os.path.exists(mp0) and json.load(open(mp0)).get("retired"):
+        return i, json.load(open(mp0))
     cmd = ["python3", os.path.join(VERIF, "tools", "seed_eval.py"), d] + (["--tests"] if tests else [])
     out = subprocess.run(cmd, stdout=subprocess.PIPE, stderr=subprocess.STDOUT, text=True).stdout
     try:
@@ -34,16 +37,42 @@ def run(i):
 with ThreadPoolExecutor(max_workers=4 if tests else 8) as ex:
     res = list(ex.map(run, ids))
 # index over all seeds
+import re as _re
+first = {}
+fp = os.path.join(VERIF, "seeded", "first_evaluation.json")
+if os.path.exists(fp):
+    first = json.load(open(fp))
 rows = []
 for i in sorted(d for d in os.listdir(os.path.join(VERIF, "seeded")) if os.path.isdir(os.path.join(VERIF, "seeded", d))):
     p = os.path.join(VERIF, "seeded", i, "meta.json")
     if not os.path.exists(p):
         continue
     m = json.load(open(p))
-    own = m["breaks_property"] in m.get("checks_reporting_it", [])
-    rows.append(f"| {i} | {m['breaks_property']} | {m.get('summary','')} | {'yes' if own else 'NO'} | {', '.join(m.get('checks_reporting_it', [])) or '-'} | {m.get('static_reach','')} |")
+    npath = os.path.join(VERIF, "seeded", i, "notes.md")
+    title = m.get("summary", "")
+    if not title and os.path.exists(npath):
+        for line in open(npath):
+            line = line.strip().lstrip("#").strip()
+            if line:
+                title = _re.sub(r"^(C\d\d\s*[/,-]?\s*)?(seed(ed)?|change|demo)\s*\d*\s*[-:–—]*\s*", "", line, flags=_re.I)[:140]
+                break
+    prop = m["breaks_property"]
+    if m.get("retired"):
+        rows.append(f"| {i} | {prop} | {title} | retired | - | {m['retired'][:160]} |")
+        continue
+    own = prop in m.get("checks_reporting_it", [])
+    rules = sorted(set(_re.findall(r"\[([A-Za-z0-9-]+)\]", " ".join(m.get("reports", {}).get(prop, [])))))
+    others = [c for c in m.get("checks_reporting_it", []) if c != prop]
+    fe = first.get(i)
+    fe_txt = "" if fe is None else ("yes" if prop in fe else "no")
+    conf = m.get("confirmed", {})
+    okc = conf.get("demo_exit_clean_tree") == 0 and conf.get("demo_exit_changed_tree") not in (0, None) and conf.get("compiles")
+    suite = conf.get("unexpected_test_failures")
+    rows.append(f"| {i} | {prop} | {title} | {'yes' if own else 'NO'} ({', '.join(rules) or '-'}) | {', '.join(others) or '-'} | first evaluation: {fe_txt or 'n/a'}; demo {'ok' if okc else 'NOT CONFIRMED'}; suite {'passes' if suite == [] else ('n/a' if suite is None else 'FAILS ' + str(suite))} |")
 with open(os.path.join(VERIF, "seeded", "INDEX.md"), "w") as f:
     f.write("# Seeded behaviour-breaking changes\n\nEach directory holds patch.diff (applies to /repo HEAD), demo.py (exit 0 before / non-zero after), notes.md (author's notes) and meta.json.\n"
-            "Regenerate with `python3 tools/seed_index.py [--tests]`.\n\n| id | property | change | caught by its property's check | all checks reporting it | remark |\n|---|---|---|---|---|---|\n" + "\n".join(rows) + "\n")
+            "Regenerate with `python3 tools/seed_index.py [--tests]`.  `first evaluation` = whether the property's own check reported the change when it was first run against it "
+            "(before any strengthening; recorded per seed from round 2b on, in aggregate for the earlier rounds: see DESIGN.md section 12).\n\n"
+            "| id | property | change | caught by its property's check now (rules) | other checks reporting it | confirmation |\n|---|---|---|---|---|---|\n" + "\n".join(rows) + "\n")
 for i, m in res:
     print(i, m["confirmed"], m["checks_reporting_it"], m["analysis_errors"])
